@@ -8,6 +8,7 @@ package main
 // returns once the event has been received) followed by a fence event, so the observations are schedule-independent.
 
 import (
+	"errors"
 	"context"
 	"encoding/json"
 	"fmt"
@@ -33,6 +34,9 @@ type rcEv struct {
 	Gen  int64  `json:"gen"`
 	UID  string `json:"uid"`
 	Mark string `json:"mark"` // content of a field that is neither status nor generation (data.mark)
+	// the report carries an error (what a status reader hands on when listing the generated objects or computing the status
+	// failed, usually with status Unknown): an observation like any other
+	Err bool `json:"err,omitempty"`
 }
 
 type rcIn struct {
@@ -128,6 +132,9 @@ func runRunnerCache(in rcIn) (out map[string]any) {
 			u.SetUID(types.UID(e.UID))
 			rs.Resource = u
 		}
+		if e.Err {
+			rs.Error = errors.New("listing the generated objects failed")
+		}
 		if !sw.send(pollevent.Event{Type: pollevent.ResourceUpdateEvent, Resource: rs}, stop) || !sw.fence(stop) {
 			hang = true
 			break
@@ -175,6 +182,12 @@ func genRunnerCache(out *proto.Out, rng *proto.Rng, tier string) {
 				p := in.Events[rng.Intn(len(in.Events))]
 				e = p
 				e.Mark = proto.Pick(rng, []string{"a", "b", "c", "d"})
+			}
+			if rng.Chance(1, 5) {
+				e.Err = true
+				if rng.Chance(2, 3) {
+					e.St = "Unknown"
+				}
 			}
 			in.Events = append(in.Events, e)
 		}
